@@ -14,8 +14,8 @@ def rust_str(lit):
 
 
 def extract(g, X):
-    file_rs = X.strip_comments(X.read("pdf/src/file.rs"))
-    xref_rs = X.strip_comments(X.read("pdf/src/xref.rs"))
+    file_rs = X.source("pdf/src/file.rs")
+    xref_rs = X.source("pdf/src/xref.rs")
 
     def save_size():
         b = X.fn_body(file_rs, "save")
